@@ -79,6 +79,16 @@ class Policy:
         self.prims = prims or {}
         self.max_depth = max_depth
         self.opaque_pred = opaque_pred
+        self.alias = {}  # real qualified name of a function -> the name the obligation uses for it (re-exports, moved functions)
+
+    def resolve_aliases(self, prog):
+        for q in list(self.opaque) + list(self.prims):
+            try:
+                fi = prog.function(q)
+            except Exception:
+                continue
+            if fi is not None and fi.qualname != q:
+                self.alias[fi.qualname] = q
 
 
 class Frame:
@@ -113,8 +123,11 @@ class _Iter:
 
     def __init__(self, items, pos=0):
         self.items, self.pos = list(items), pos
+        self.partial = False  # True: only a prefix of what the iterator yields is known
 
     def rest(self):
+        if self.partial:
+            raise AnalysisError("a lazily evaluated generator is consumed beyond the part whose filter conditions are decided")
         return self.items[self.pos:]
 
 
@@ -146,6 +159,23 @@ class _Obj:
 
     def __repr__(self):
         return "<%s.%s %s>" % (self.modname, self.cls, {k: tm.show(v)[:40] for k, v in self.fields.items()})
+
+    def __eq__(self, other):
+        if self is other:
+            return True
+        if not isinstance(other, _Obj):
+            if self.tuple_like and isinstance(other, tuple):
+                return tuple(self.fields.values()) == other
+            return False
+        if not (self.tuple_like and other.tuple_like) or (self.modname, self.cls) != (other.modname, other.cls):
+            return False  # plain instances compare by identity
+        return list(self.fields) == list(other.fields) and all(tm.veq(a, b) for a, b in zip(self.fields.values(), other.fields.values()))
+
+    def __ne__(self, other):
+        return not self.__eq__(other)
+
+    def __hash__(self):
+        return hash((self.modname, self.cls))
 
 
 def clone(v, _memo=None):
@@ -237,6 +267,8 @@ def _struct_layout(fmt):
     integers, `s` strings and pad bytes only; None for anything else (native alignment, signed, floats)."""
     import re as _re
     fmt = fmt.replace(" ", "")
+    if fmt and (fmt[0] == "@" or fmt[0] not in "<>!=") and _re.fullmatch(r"@?(\d*[sxB])+", fmt):
+        fmt = "=" + fmt.lstrip("@")  # native mode: byte strings, pad bytes and single bytes have no alignment and no byte order
     if not fmt or fmt[0] not in "<>!=":
         return None
     order = "little" if fmt[0] == "<" else "big"
@@ -343,7 +375,7 @@ def assigned_names(stmts):
             if isinstance(n, ast.Assign):
                 for t in n.targets:
                     tgt(t)
-            elif isinstance(n, (ast.AugAssign, ast.AnnAssign)):
+            elif isinstance(n, (ast.AugAssign, ast.AnnAssign, ast.NamedExpr)):
                 tgt(n.target)
             elif isinstance(n, (ast.For,)):
                 tgt(n.target)
@@ -668,6 +700,16 @@ class Evaluator:
             return self.while_(st, fr)
         if isinstance(st, ast.Try):
             return self.try_(st, fr)
+        if isinstance(st, ast.With) and len(st.items) == 1 and isinstance(st.items[0].context_expr, ast.Call) and \
+                (dotted_parts(st.items[0].context_expr.func) or [""])[-1] == "suppress" and st.items[0].optional_vars is None:
+            # with contextlib.suppress(E1, E2): body   is   try: body / except (E1, E2): pass
+            call = st.items[0].context_expr
+            handler = ast.ExceptHandler(type=ast.Tuple(elts=list(call.args), ctx=ast.Load()) if len(call.args) != 1 else call.args[0], name=None, body=[ast.Pass()])
+            tr = ast.Try(body=st.body, handlers=[handler], orelse=[], finalbody=[])
+            ast.copy_location(tr, st)
+            ast.copy_location(handler, st)
+            ast.fix_missing_locations(tr)
+            return self.try_(tr, fr)
         if isinstance(st, ast.With):
             for it in st.items:
                 v = self.expr(it.context_expr, fr)
@@ -852,8 +894,35 @@ class Evaluator:
             v = v.fields[a]
         return v
 
+    def decide_in(self, c, fr):
+        """decide(), then the facts of the path: a condition that (or whose negation) the path has already established."""
+        c = self.decide(c)
+        if isinstance(c, T) and fr.facts:
+            n = tm.lnot(c)
+            for f in fr.facts:
+                if isinstance(f, T):
+                    if f == c or tm.veq(f, c):
+                        return True
+                    if f == n or tm.veq(f, n):
+                        return False
+        return c
+
+    def under_facts(self, v, fr):
+        """A value that is a choice ite(c, a, b) on a condition the path has already established is the chosen branch."""
+        n = 0
+        while isinstance(v, T) and v.op == "ite" and fr.facts and n < 8:
+            c = self.decide_in(v.args[0], fr)
+            if c is True:
+                v = _unfz(v.args[1]) if not isinstance(v.args[1], (T, _Obj)) else v.args[1]
+            elif c is False:
+                v = _unfz(v.args[2]) if not isinstance(v.args[2], (T, _Obj)) else v.args[2]
+            else:
+                break
+            n += 1
+        return v
+
     def if_(self, st, fr):
-        c = self.decide(tm.truth(self.expr(st.test, fr)))
+        c = self.decide_in(tm.truth(self.expr(st.test, fr)), fr)
         if c is True:
             return self.block(st.body, fr)
         if c is False:
@@ -998,7 +1067,10 @@ class Evaluator:
         if body_done and not live:
             return True
         if body_done:
-            # only handler flows continue
+            # only handler flows continue: what follows the try statement runs under "some handler ran"
+            gcont = tm.lor([g_ for g_, _f in live])
+            if gcont is not True and gcont is not False:
+                fr.guard = list(fr.guard) + [gcont]
             g, fh = live[0]
             fr.env = fh.env
             fr.facts = [f for f in fh.facts if all(any(tm.veq(f, x) for x in f2.facts) for g2, f2 in live[1:])]
@@ -1019,7 +1091,46 @@ class Evaluator:
         return False
 
     # ---- loops
+    def _fuse_generator_loop(self, st, fr):
+        """A `for` loop over a call of a generator function of the same module (or a generator method of the same object) is
+        evaluated as the one loop the pair amounts to (sa/fuse.py); None when the pair is not of the fusable shape."""
+        from .fuse import fuse_loop
+        call = st.iter
+        if not isinstance(call, ast.Call):
+            return None
+        parts = dotted_parts(call.func)
+        if not parts or parts[0] in fr.env and not (len(parts) == 2 and isinstance(fr.env.get(parts[0]), (_Obj, T)) and self._cur_cls):
+            return None
+        fi, self_expr = None, None
+        if parts[0] in fr.env:
+            # obj.method(...) where obj is the object whose method is being evaluated (`self`)
+            recv = fr.env[parts[0]]
+            mod_cls = (recv.modname, recv.cls) if isinstance(recv, _Obj) else (self._cur_cls if isinstance(recv, T) and recv.op == "param" and fr.fi is not None and fr.fi.cls and
+                                                                               fr.fi.params()[:1] == [parts[0]] else None)
+            if mod_cls is None:
+                return None
+            meths, _a = self.class_members(*mod_cls)
+            fi = meths.get(parts[1])
+            if fi is None or {ast.unparse(d) for d in fi.node.decorator_list} & {"staticmethod", "classmethod"}:
+                return None
+            self_expr = call.func.value
+        else:
+            r = self.prog.lookup(fr.modname, parts[0]) if len(parts) == 1 else self.prog.resolve_chain(fr.modname, parts)
+            if not r or r[0] != "func" or r[1].cls:
+                return None
+            fi = r[1]
+        q = self.policy.alias.get(fi.qualname, fi.qualname)
+        if fi.module.name != fr.modname or q in self.policy.opaque or (self.policy.opaque_pred and self.policy.opaque_pred(q)) or fi.qualname in self._stack:
+            return None
+        if fi.node.decorator_list and self_expr is None:
+            return None
+        self._fuse_n = getattr(self, "_fuse_n", 0) + 1
+        return fuse_loop(st, fi.node, "__%s%d_" % (fi.node.name, self._fuse_n), self_expr=self_expr)
+
     def for_(self, st, fr):
+        fused = self._fuse_generator_loop(st, fr)
+        if fused is not None:
+            return self.block(fused, fr)
         it = self.expr(st.iter, fr)
         if isinstance(it, _Iter):
             # consume the iterator one element at a time: a break leaves the rest for whoever uses the iterator next
@@ -1099,7 +1210,58 @@ class Evaluator:
                 return ast.copy_location(ast.While(test=t, body=body, orelse=[]), st)
         return st
 
+    @staticmethod
+    def _lift_walrus(st):
+        """`while T[(k := E)]: B`, the assignment being the first thing the test evaluates and B having no `continue`, is
+        `k = E; while T[k]: B; k = E`."""
+        spine, n = [], st.test
+        while True:
+            if isinstance(n, ast.NamedExpr):
+                break
+            if isinstance(n, ast.UnaryOp):
+                n = n.operand
+            elif isinstance(n, ast.Compare):
+                n = n.left
+            elif isinstance(n, ast.BoolOp):
+                n = n.values[0]
+            elif isinstance(n, ast.BinOp):
+                n = n.left
+            else:
+                return None
+        if sum(isinstance(x, ast.NamedExpr) for x in ast.walk(st.test)) != 1 or not isinstance(n.target, ast.Name):
+            return None
+        stack = list(st.body)
+        while stack:
+            x = stack.pop()
+            if isinstance(x, ast.Continue):
+                return None
+            if isinstance(x, (ast.For, ast.While, ast.FunctionDef, ast.Lambda, ast.ClassDef)):
+                continue
+            stack.extend(ast.iter_child_nodes(x))
+        import copy
+        walrus = n
+
+        class Sub(ast.NodeTransformer):
+            def visit_NamedExpr(self, x):
+                return ast.copy_location(ast.Name(id=walrus.target.id, ctx=ast.Load()), x)
+        asg = ast.copy_location(ast.Assign(targets=[ast.Name(id=walrus.target.id, ctx=ast.Store())], value=walrus.value), walrus)
+        body = [b for b in st.body if not isinstance(b, ast.Pass)] + [copy.deepcopy(asg)]
+        loop = ast.copy_location(ast.While(test=Sub().visit(copy.deepcopy(st.test)), body=body, orelse=st.orelse), st)
+        out = [asg, loop]
+        for x in out:
+            ast.fix_missing_locations(x)
+        return out
+
+    def e_NamedExpr(self, e, fr):
+        v = self.expr(e.value, fr)
+        self.assign(e.target, v, fr)
+        return v
+
     def while_(self, st, fr):
+        if any(isinstance(x, ast.NamedExpr) for x in ast.walk(st.test)):
+            lifted = self._lift_walrus(st)
+            if lifted is not None:
+                return self.block(lifted, fr)
         st = self._norm_while(st)
         # a while whose test folds to False never runs
         c0 = tm.truth(self.expr(st.test, fr))
@@ -1295,7 +1457,17 @@ class Evaluator:
             for mn, st in assigns:
                 names = [t.id for t in st.targets if isinstance(t, ast.Name)] if isinstance(st, ast.Assign) else ([st.target.id] if isinstance(st.target, ast.Name) else [])
                 if r[3] in names and st.value is not None:
-                    return self.expr(st.value, Frame(self, mn, None, Summary(None), 0))
+                    val = self.expr(st.value, Frame(self, mn, None, Summary(None), 0))
+                    cnode = self.prog.modules[r[1].name].classnodes.get(r[2])
+                    if cnode is not None and any((dotted_parts(b) or ["?"])[-1] == "Enum" for b in cnode.bases) and not ({"__new__", "__init__", "_generate_next_value_"} & set(_meths)) \
+                            and not r[3].startswith("_") and tm.is_conc(val):
+                        # a member of a plain Enum: an object with .name / .value and the class's methods (one object per member)
+                        cache = self.__dict__.setdefault("_enum_members", {})
+                        key = (r[1].name, r[2], r[3])
+                        if key not in cache:
+                            cache[key] = _Obj(r[1].name, r[2], {"name": r[3], "value": val, "_name_": r[3], "_value_": val})
+                        return cache[key]
+                    return val
             return T("raise", ("AttributeError",))
         return tm.unk("ref")
 
@@ -1422,11 +1594,28 @@ class Evaluator:
                     parts.append(T("fmt", (tm._fz(x), spec, v.conversion), tm.STR))
         return tm.scat(parts)
 
+    def _display(self, e, fr):
+        """Elements of a list / tuple display; *x spliced in when x has a known structure."""
+        out = []
+        for x in e.elts:
+            if isinstance(x, ast.Starred):
+                v = self.expr(x.value, fr)
+                seq = _concrete_iter(v) if not isinstance(v, (str, dict)) else None
+                if seq is None and isinstance(v, T):
+                    seq = self._bound_length_iter(v)
+                if seq is not None:
+                    out.extend(seq)
+                    continue
+                out.append(T("starred", (tm._fz(v),)))
+            else:
+                out.append(self.expr(x, fr))
+        return out
+
     def e_Tuple(self, e, fr):
-        return tuple(self.expr(x, fr) for x in e.elts)
+        return tuple(self._display(e, fr))
 
     def e_List(self, e, fr):
-        return [self.expr(x, fr) for x in e.elts]
+        return self._display(e, fr)
 
     def e_Set(self, e, fr):
         return T("set", tuple(self.expr(x, fr) for x in e.elts))
@@ -1448,7 +1637,7 @@ class Evaluator:
         return out
 
     def e_IfExp(self, e, fr):
-        c = self.decide(tm.truth(self.expr(e.test, fr)))
+        c = self.decide_in(tm.truth(self.expr(e.test, fr)), fr)
         if c is True:
             return self.expr(e.body, fr)
         if c is False:
@@ -1644,7 +1833,7 @@ class Evaluator:
         return self.comp(e, fr, "list")
 
     def e_GeneratorExp(self, e, fr):
-        return self.comp(e, fr, "list")
+        return self.comp(e, fr, "gen")
 
     def e_SetComp(self, e, fr):
         return T("setof", (tm._fz(self.comp(e, fr, "list")),))
@@ -1673,11 +1862,17 @@ class Evaluator:
             ok = True
             for x in seq:
                 self.assign(gen.target, x, sub)
-                cs = [tm.truth(self.expr(c, sub)) for c in gen.ifs]
+                cs = [self.decide(tm.truth(self.expr(c, sub))) for c in gen.ifs]
                 c = tm.land(cs)
                 if c is False:
                     continue
                 if c is not True:
+                    if kind == "gen" and last and out and len(e.generators) == 1:
+                        # a generator is lazy: what it yields before the first undecidable filter is known; a consumer that
+                        # stops there (next(...), any(...)) never asks for the rest
+                        it_ = _Iter(out)
+                        it_.partial = True
+                        return it_
                     ok = False
                     break
                 r = body(sub)
@@ -1697,6 +1892,8 @@ class Evaluator:
                         d[k] = v
                     return d
                 return out
+        if kind == "gen":
+            kind = "list"
         d = sub.loopdepth
         sub.loopdepth = d + 1
         sub.iters[d] = it
@@ -1710,7 +1907,7 @@ class Evaluator:
         b = body(sub)
         if kind == "dict":
             b = T("kv", (tm._fz(b[0]), tm._fz(b[1])))
-        return tm.mapt(tm._fz(b), it, None if c is True else c, tm.LIST if kind == "list" else tm.DICT)
+        return tm.mapt(tm._fz(b), it, None if c is True else c, tm.LIST if kind in ("list", "gen") else tm.DICT)
 
     # ---- calls
     def e_Call(self, e, fr):
@@ -1800,7 +1997,8 @@ class Evaluator:
         return res
 
     _HARMLESS_DECORATORS = ("functools.wraps", "functools.lru_cache", "functools.cache", "staticmethod", "classmethod", "property", "typing.overload",
-                            "functools.singledispatch", "abc.abstractmethod", "dataclasses.dataclass", "dataclass")
+                            "functools.singledispatch", "abc.abstractmethod", "dataclasses.dataclass", "dataclass", "functools.cached_property", "cached_property",
+                            "functools.total_ordering", "typing.final", "contextlib.contextmanager")
 
     def _package_decorators(self, fi, fr):
         """Decorators of a module-level function that are functions of the package (they replace the function by what they
@@ -1846,6 +2044,8 @@ class Evaluator:
             return vals[0] if len(vals) == 1 else tuple(vals)
         if isinstance(fv, T) and fv.op == "attrgetter" and len(pos) == 1 and not kw and len(fv.args) == 1 and "." not in fv.args[0]:
             return self.getattr_value(pos[0], fv.args[0])
+        if isinstance(fv, T) and fv.op == "attr" and len(fv.args) == 2 and isinstance(fv.args[1], str):
+            return self.method(_unfz(fv.args[0]), fv.args[1], list(pos), kw, e, fr)  # x.method held as a value and called later
         if isinstance(fv, T) and fv.op == "boundmethod":
             return self.method(_unfz(fv.args[0]) if not isinstance(fv.args[0], (T, _Obj)) else fv.args[0], fv.args[1], list(pos), kw, e, fr)
         if isinstance(fv, T) and fv.op == "fn":
@@ -1934,7 +2134,7 @@ class Evaluator:
         return obj
 
     def call_fn(self, fi, pos, kw, e, fr, skip_self=False, closure_env=None, raw=False):
-        q = fi.qualname
+        q = self.policy.alias.get(fi.qualname, fi.qualname)
         if not raw and closure_env is None and q not in self.policy.prims and q not in self.policy.opaque:
             deco = self._package_decorators(fi, fr)
             if deco:
@@ -1995,7 +2195,7 @@ class Evaluator:
             for f in rets[0].facts:
                 if isinstance(f, T) and f.op == "forall" and not any(tm.veq(f, g0) for g0 in fr.facts):
                     fr.facts.append(f)
-        return sub.value()
+        return self.under_facts(sub.value(), fr)
 
     # ---- methods on values
     def method(self, recv, meth, pos, kw, e, fr):
@@ -2026,6 +2226,24 @@ class Evaluator:
                     return self.call_fn(meths[meth], [recv] + list(pos), kw, e, fr)
                 if "staticmethod" in decos:
                     return self.call_fn(meths[meth], list(pos), kw, e, fr)
+            if meth == "_make" and len(pos) == 1 and not kw:
+                # NamedTuple._make(iterable): the fields in order
+                cnode = self.prog.modules[cmod].classnodes.get(ccls) if cmod in self.prog.modules else None
+                if cnode is not None and any((dotted_parts(b) or ["?"])[-1] == "NamedTuple" for b in cnode.bases):
+                    names = [st.target.id for _mn, st in _assigns if isinstance(st, ast.AnnAssign) and isinstance(st.target, ast.Name)]
+                    src = _unfz(pos[0]) if not isinstance(pos[0], (T, _Obj)) else pos[0]
+                    if isinstance(src, _Obj) and src.tuple_like:
+                        src = list(src.fields.values())
+                    if isinstance(src, (list, tuple)):
+                        vals = list(src)
+                    elif isinstance(src, T):
+                        vals = [T("proj", (src, i), tm.ANY) for i in range(len(names))]
+                    else:
+                        vals = None
+                    if vals is not None:
+                        obj = self.instantiate(cmod, ccls, vals, {}, e, fr)
+                        if obj is not None:
+                            return obj
         ty = tm.tyof(recv)
         fr.summary.calls.append(("method:" + meth, [recv] + list(pos), kw, e, tuple(fr.guard), tuple(fr.facts), dict(fr.iters)))
         if isinstance(recv, T) and recv.op == "ite" and meth not in ("append",):
@@ -2112,11 +2330,15 @@ class Evaluator:
                 ok = False
             if ok:
                 return tm.scat(parts)
+        if meth in ("ljust", "rjust", "center") and pos and isinstance(pos[0], int) and ty == tm.ANY and len(pos) > 1 and isinstance(pos[1], (str, bytes)):
+            ty = tm.STR if isinstance(pos[1], str) else tm.BYTES  # the fill character tells which kind of string is padded
         if meth in ("ljust", "rjust", "center") and pos and isinstance(pos[0], int) and ty in (tm.BYTES, tm.STR):
             # padding to a width: with a known length the result is the value and (width - len) fill characters
             fill = pos[1] if len(pos) > 1 else (b" " if ty == tm.BYTES else " ")
             n = tm.blen(recv) if ty == tm.BYTES else (len(recv) if isinstance(recv, str) else None)
-            if isinstance(n, int) and tm.is_conc(fill) and meth != "center":
+            if not isinstance(n, int) and self.bind and isinstance(recv, T):
+                n = self.bind.get(tm.length(recv))  # the region under analysis fixes the length
+            if isinstance(n, int) and not isinstance(n, bool) and tm.is_conc(fill) and meth != "center":
                 padn = max(0, pos[0] - n)
                 parts = [recv, fill * padn] if meth == "ljust" else [fill * padn, recv]
                 return tm.cat(parts) if ty == tm.BYTES else tm.scat(parts)
@@ -2200,6 +2422,92 @@ class Evaluator:
         self._opaque_log.append(r)
         return r
 
+    def _itertools(self, name, pos, kw, e, fr):
+        """itertools functions on sequences of known structure (elements may be symbolic); lists stand for the iterators."""
+        def seq_of(v):
+            if isinstance(v, (str, dict)):
+                return None
+            s_ = _concrete_iter(v)
+            if s_ is None and isinstance(v, T):
+                s_ = self._bound_length_iter(v)
+            return s_
+        if name == "accumulate" and pos:
+            xs = seq_of(pos[0])
+            if xs is None:
+                return NotImplemented
+            f = pos[1] if len(pos) > 1 else kw.get("func")
+            out = []
+            if kw.get("initial") is not None:
+                out.append(kw["initial"])
+            for x in xs:
+                if not out:
+                    out.append(x)
+                elif f is None:
+                    out.append(self.binop(ast.Add(), out[-1], x, e))
+                else:
+                    out.append(self.call_value(f, [out[-1], x], {}, e, fr))
+            return out
+        if name in ("chain", "chain.from_iterable"):
+            parts = pos if name == "chain" else (seq_of(pos[0]) if pos else None)
+            if parts is None:
+                return NotImplemented
+            out, symbolic = [], False
+            for p_ in parts:
+                xs = seq_of(p_)
+                if xs is None:
+                    if isinstance(p_, T) and (tm.tyof(p_) in (tm.LIST, tm.TUPLE) or p_.op in ("map", "lcat")):
+                        out.append(p_)  # a sequence of unknown length: the chain is the list concatenation
+                        symbolic = True
+                        continue
+                    return NotImplemented
+                out.append(list(xs))
+            if symbolic:
+                return tm.lcat(out)
+            return [x for part in out for x in part]
+        if name == "islice" and 2 <= len(pos) <= 4 and all(x is None or (isinstance(x, int) and not isinstance(x, bool)) for x in pos[1:]):
+            xs = seq_of(pos[0])
+            if xs is None:
+                return NotImplemented
+            return xs[slice(*pos[1:])]
+        if name == "pairwise" and len(pos) == 1:
+            xs = seq_of(pos[0])
+            return NotImplemented if xs is None else [(a, b) for a, b in zip(xs, xs[1:])]
+        if name == "repeat" and len(pos) == 2 and isinstance(pos[1], int):
+            return [pos[0]] * pos[1]
+        if name == "zip_longest" and pos:
+            cols = [seq_of(p_) for p_ in pos]
+            if any(c is None for c in cols):
+                return NotImplemented
+            n_ = max(len(c) for c in cols)
+            fill = kw.get("fillvalue")
+            return [tuple(c[i] if i < len(c) else fill for c in cols) for i in range(n_)]
+        if name in ("takewhile", "dropwhile", "filterfalse") and len(pos) == 2:
+            xs = seq_of(pos[1])
+            if xs is None:
+                return NotImplemented
+            verdicts = []
+            for x in xs:
+                c = self.decide(tm.truth(self.call_value(pos[0], [x], {}, e, fr))) if pos[0] is not None else self.decide(tm.truth(x))
+                if c is not True and c is not False:
+                    return NotImplemented
+                verdicts.append(c)
+            if name == "filterfalse":
+                return [x for x, c in zip(xs, verdicts) if not c]
+            k = next((i for i, c in enumerate(verdicts) if not c), len(xs))
+            return xs[:k] if name == "takewhile" else xs[k:]
+        if name == "product" and pos and not kw:
+            cols = [seq_of(p_) for p_ in pos]
+            if any(c is None for c in cols):
+                return NotImplemented
+            import itertools as _it
+            return [tuple(t) for t in _it.product(*cols)]
+        if name == "starmap" and len(pos) == 2:
+            xs = seq_of(pos[1])
+            if xs is None:
+                return NotImplemented
+            return [self.call_value(pos[0], list(_concrete_iter(x) or [x]), {}, e, fr) for x in xs]
+        return NotImplemented
+
     def _extern(self, n, pos, kw, e, fr):
         a0 = pos[0] if pos else None
         if n == "iter" and len(pos) == 2 and not kw:
@@ -2249,6 +2557,10 @@ class Evaluator:
                     return _struct_unpack(lay, pos[1], pos[2] if len(pos) == 3 else 0, exact=False)
                 if n == "struct.pack" and len(pos) == 1 + len(lay[1]):
                     return _struct_pack(lay, pos[1:])
+        if n.startswith("itertools.") and not isinstance(a0, _CallStream):
+            r = self._itertools(n[10:], pos, kw, e, fr)
+            if r is not NotImplemented:
+                return r
         if n == "functools.partial" and pos:
             return T("partial", (pos[0] if isinstance(pos[0], (T, _Closure)) else tm._fz(pos[0]), tm.freeze(list(pos[1:])), tm.freeze(dict(kw))))
         if n == "operator.itemgetter" and pos and not kw:
@@ -2501,8 +2813,10 @@ class Evaluator:
             if seq is not None:
                 return tm.lor([tm.truth(x) for x in seq])
             return T("any", (tm._fz(a0),), tm.BOOL)
-        if n == "map" and len(pos) == 2 and (isinstance(pos[0], _Closure) or (isinstance(pos[0], T) and pos[0].op in ("itemgetter", "attrgetter", "partial", "fn", "ext", "boundmethod"))):
+        if n == "map" and len(pos) == 2 and (isinstance(pos[0], _Closure) or (isinstance(pos[0], T) and pos[0].op in ("itemgetter", "attrgetter", "partial", "fn", "ext", "boundmethod", "attr", "classref", "fnraw"))):
             seq = _concrete_iter(pos[1]) if not isinstance(pos[1], (str, dict)) else None
+            if seq is None and isinstance(pos[1], T):
+                seq = self._bound_length_iter(pos[1])
             if seq is not None and len(seq) <= MAX_UNROLL:
                 return [self.call_value(pos[0], [x], {}, e, fr) for x in seq]
             if seq is None:
